@@ -21,7 +21,7 @@ PID = 'C13'
 KIND = 5
 IMPL = ('c13', 'impl_build')
 COUNTS = dict(quick=3000, thorough=40000)
-RULE = ('case = header (Machine or HierarchicalMachine, auto_transitions, ignore_invalid_triggers None/True/False, '
+RULE = ('case = header (Machine or HierarchicalMachine, every third case their Graph variant with the mermaid engine, auto_transitions, ignore_invalid_triggers None/True/False, '
         'send_event, machine-level callbacks) + one abstract description (1-5 states with enter/exit callbacks, final, '
         'ignore flags; initial; 1-7 items: transitions with 1..all sources and dest same/one/internal, ordered rings with '
         'loop/loop_includes_initial/per-edge callbacks, removals with source/dest filters, add-then-remove detours) realised '
@@ -696,6 +696,7 @@ def gen(rng, i, tier):
         else:
             e = ev_user(9)
         hist.append((r.choice([0, 0, 2]), e, 100 + j))
+    hdr['graph'] = (i % 3 == 1)      # GraphMachine / HierarchicalGraphMachine (mermaid engine) instead of the plain class
     case = dict(hdr=hdr, A=A, B=B, env=env, history=hist, nstates=max([0] + sim.states) + 1)
     fix_unless_polarity(case)
     return case
@@ -801,6 +802,11 @@ class Builder(object):
         h = case['hdr']
         self.hsm = h['hsm']
         self.cls = HierarchicalMachine if self.hsm else self.tr.Machine
+        self.cls_kwargs = {}
+        if h.get('graph'):
+            # the graph variants re-declare add_transition & co.: same scripts, same machine
+            self.cls = flat.get_class('HierarchicalGraphMachine' if self.hsm else 'GraphMachine')
+            self.cls_kwargs = flat.class_kwargs('GraphMachine')
         self.state_cls = NestedState if self.hsm else self.tr.State
         self.world = flat.World(case['env'], h['send'])
         self.world.state_of = lambda m: st_num(getattr(m, 'state', None))
@@ -931,6 +937,7 @@ class Builder(object):
                 kw['model'] = self.model
             else:
                 raise RuntimeError('bad constructor op ' + o['op'])
+        kw.update(self.cls_kwargs)
         self.machine = self.cls(**kw)
 
     def run_op(self, o):
@@ -951,7 +958,10 @@ class Builder(object):
         elif k == 'initial':
             m.initial = self.sref(o['r'])
         elif k == 'trans':
-            m.add_transition(**self.tkwargs(o['t']))
+            if (o['t']['trig'] + len(str(o['t']['cbs']))) % 2:
+                m.add_transition(*self.telem('pos', o['t']))      # positional call
+            else:
+                m.add_transition(**self.tkwargs(o['t']))
         elif k == 'transs':
             m.add_transitions([self.telem(f, t) for f, t in o['l']])
         elif k == 'ordered':
@@ -1127,6 +1137,8 @@ def stats(case, obs, dist):
     def inc(k, n=1):
         dist[k] = dist.get(k, 0) + n
     inc('hsm_cases' if case['hdr']['hsm'] else 'machine_cases')
+    if case['hdr'].get('graph'):
+        inc('graph_class_cases')
     if case['hdr']['auto']:
         inc('auto_transitions_cases')
     for key in ('A', 'B'):
@@ -1418,6 +1430,28 @@ def extra_checks(tier, seed):
         okh, dist, badh = False, {}, dict(kind='correspondence', correspondence='corr_C13_hbuild',
                                           error=traceback.format_exc()[-2000:])
     res.append(('hsm_builder_model_vs_library', okh, dist, badh))
+    # every machine class takes the arguments of the construction methods in the positions core.Machine declares
+    # (list-form transitions and positional calls rely on it)
+    import inspect
+    import transitions.extensions as ext
+
+    def positional(f):
+        return [p.name for p in inspect.signature(f).parameters.values()
+                if p.kind in (p.POSITIONAL_ONLY, p.POSITIONAL_OR_KEYWORD)]
+    sig_bad = []
+    methods = ('__init__', 'add_transition', 'add_transitions', 'add_states', 'add_state', 'add_ordered_transitions',
+               'remove_transition', 'get_transitions', 'add_model')
+    classes = sorted(cn for cn in dir(ext) if cn.endswith('Machine'))
+    for meth in methods:
+        base = positional(getattr(flat.get_class('Machine'), meth))
+        for cn in classes:
+            got = positional(getattr(getattr(ext, cn), meth))
+            if got[:len(base)] != base:
+                sig_bad.append([cn, meth, got, base])
+    res.append(('positional_parameter_order', not sig_bad, dict(classes=len(classes), methods=len(methods)),
+                dict(kind='counterexample', correspondence='positional_parameter_order', mismatches=sig_bad,
+                     failing_clause='a machine class declares the positional parameters of a construction method in another '
+                                    'order than core.Machine') if sig_bad else {}))
     # states / transitions / initial given by (nested) Enum members, the member names reused on every level,
     # vs the same machine given by names: same traces, results and configurations on a random history
     import hsm
